@@ -10,7 +10,7 @@ import (
 // FuzzReframe lets the native fuzzer pick the bytes and the cut set.
 //
 //	cfg   bits 0-2 encoding, 3-4 END_STREAM placement, 5 direction carrying the
-//	      stream, 6 raw mode, 7 empty DATA frames inserted
+//	      stream, 6 raw mode, 7 empty DATA frames inserted, 8-15 header field permutation
 //	body  structured mode: records [ctl][payload...]: ctl bit0 = compressed flag,
 //	      ctl>>1 = payload length (0..127, clipped to what is left); the harness
 //	      compresses flagged payloads with the independent encoders.
@@ -57,7 +57,7 @@ func fuzzCase(cfg uint16, body, cuts []byte) (Case, bool) {
 	if cfg>>7&1 == 1 {
 		d.Empty = []int{0, len(d.Cuts) / 2, len(d.Cuts)}
 	}
-	c := Case{CT: "application/grpc"}
+	c := Case{CT: "application/grpc", HOrd: int(cfg >> 8)} // bits 8-15: header field permutation
 	other := Dir{End: "absent"}
 	if cfg>>5&1 == 1 {
 		c.C, c.S = other, d
@@ -79,6 +79,8 @@ func FuzzReframe(f *testing.F) {
 	f.Add(uint16(64|16|32), []byte{0, 0xff, 0xff, 0xff, 0xff, 'a'}, []byte{0x01})
 	f.Add(uint16(64|8|128), []byte{0, 0, 0, 0, 0, 0, 0, 0, 0, 0}, []byte{0x10})
 	f.Add(uint16(1|128), []byte{255, 254, 253}, []byte{0xaa})
+	f.Add(uint16(2|8|5<<8), []byte{9, 'a', 'b', 'c', 'd'}, []byte{0x04})
+	f.Add(uint16(4|16|32|77<<8), []byte{9, 'a', 'b', 'c', 'd', 3, 'x'}, []byte{0xff})
 	f.Fuzz(func(t *testing.T, cfg uint16, body, cuts []byte) {
 		c, ok := fuzzCase(cfg, body, cuts)
 		if !ok {
